@@ -183,6 +183,38 @@ def ff_getters(repo, res, ty, rule="FF"):
             res.check(ok, rule, f"{rule}:{fq}:{fld}", f"{ctor}.{fld} <= {getter}(..)", fn.loc())
 
 
+def allstates(repo, res, rule="ALLSTATES"):
+    """The per-state rows an emitter writes itself (the within-word transition table of the main automaton) are written for EVERY
+    state: the state handed to `get_*_transitions_from` ranges over `dfa.get_all_states()` with no adaptor and no condition on the
+    state in between.  After minimisation state 0 is the start state, not a sink: `!= DEAD_STATE_ID` drops the start state's row; the
+    keys of another table are the states that have a literal transition, not all states."""
+    from vlib import preds as PR
+    n = 0
+    for mod in RE.EMITTERS:
+        for fn in repo.fns_in(mod):
+            calls = [c for c in A.walk(fn.body) if c["k"] == "MethodCall" and re.fullmatch(r"get_\w+_transitions_from", c["method"]) and c["args"]]
+            if not calls:
+                continue
+            envs = A.collect_envs(fn)
+            pm = A.parent_map(fn.body)
+            for c in calls:
+                n += 1
+                p = A.resolve(c["args"][0], envs.get(id(c)))
+                while p[0] in ("ref", "deref", "cast"):
+                    p = p[1]
+                src = p[1] if p[0] == "elem" else ("none",)
+                via = []
+                while src[0] == "mcall" and src[1] != "get_all_states":
+                    via.append(src[1])
+                    src = src[2]
+                from_all = p[0] == "elem" and src[0] == "mcall" and src[1] == "get_all_states" and set(via) <= {"iter", "into_iter", "copied", "cloned"}
+                kn = [k for k in PR.known(repo, fn, c, envs, pm) if "get_all_states" in k or "DEAD_STATE_ID" in k]
+                ok = from_all and not kn
+                res.check(ok, rule, f"{rule}:{fn.qname}:{c['method']}", f"rows of {c['method']} are written for every state of dfa.get_all_states()" if ok else
+                          f"rows of {c['method']} are written for {A.show(p)[:90]}" + (f" under {kn}" if kn else "") + ": not every state gets its row, the reader then finds no transition where the automaton has one", f"{fn.file}:{c['l']}")
+    res.floor(rule, n, 2)
+
+
 def isocov(repo, res, rule="ISOCOV"):
     for fq in ("tables::LookupTables::isomorphic_to", "tables::LookupTables::shape_hash"):
         fn = repo.fn(fq)
@@ -576,6 +608,7 @@ def run(repo, res, tier):
     # the one command-id set holds the command of EVERY symbol that has one, top-level and within-word (ids are looked up in it later)
     FC.fieldcover(repo, res, "dfa::DFA::get_commands", "Inp", "cmd", "call:insert", min_matches=2)
     descrlink(repo, res, ty)
+    allstates(repo, res)
     # `the description attached to each literal` is embedded as that text only if it goes through the module's string-constant encoder
     # (a description printed raw between quotes is a different text as soon as it contains a quote, `$` or a backslash): shared with C07
     from . import c07
